@@ -323,14 +323,16 @@ func Minimise(path string, budget int) (string, error) {
 	}
 	cur, curV := rf.Case, v0
 	evals, steps := 0, 0
-	for progress := true; progress && evals < budget; {
+	// also bounded in time (large cases): what is reached by then is kept; the verdict does not depend on it
+	deadline := time.Now().Add(75 * time.Second)
+	for progress := true; progress && evals < budget && time.Now().Before(deadline); {
 		progress = false
 		cands, err := sh(cur)
 		if err != nil {
 			return "", err
 		}
 		for _, cand := range cands {
-			if evals >= budget {
+			if evals >= budget || time.Now().After(deadline) {
 				break
 			}
 			evals++
